@@ -419,3 +419,26 @@ def dssp_tables(repo):
             'Definition ss_cg : list (ascii * ascii) := [%s].' % '; '.join('(%s, %s)' % (_coq_char(a), _coq_char(b)) for a, b in table),
             'Definition helix_patterns : list (string * string) := [%s].' % '; '.join('(%s, %s)' % (coq_str(p), coq_str(r)) for p, r in patterns)]
     return 'Dssp.v', '\n'.join(text) + '\n'
+
+
+# ---------------------------------------------------------------------------
+# C10: van der Waals radii
+@extractor
+def vdw_radii(repo):
+    from fractions import Fraction
+    tree = ast.parse(open(os.path.join(repo, 'vermouth', 'processors', 'make_bonds.py')).read())
+    d = [n.value for n in tree.body if isinstance(n, ast.Assign) and len(n.targets) == 1
+         and isinstance(n.targets[0], ast.Name) and n.targets[0].id == 'VDW_RADII']
+    if len(d) != 1 or not isinstance(d[0], ast.Dict):
+        raise ExtractError('VDW_RADII')
+    items = []
+    for k, v in zip(d[0].keys, d[0].values):
+        name = _const_str(k)
+        if name is None or not isinstance(v, ast.Constant) or not isinstance(v.value, (int, float)):
+            raise ExtractError('VDW_RADII entry')
+        fr = Fraction(repr(v.value))
+        items.append('(%s, %d # %d)' % (coq_str(name), fr.numerator, fr.denominator))
+    text = ['(* GENERATED by vlib/extract.py from /repo: do not edit *)',
+            'From Coq Require Import List String QArith.', 'Import ListNotations.',
+            'Definition vdw_radii : list (string * Q) := [%s].' % ';\n  '.join(items)]
+    return 'Radii.v', '\n'.join(text) + '\n'
